@@ -353,10 +353,15 @@ pub fn case_solve(ctx: &mut Ctx, case: &Value) {
         Err(e) => return ctx.fail_corr(case, format!("tree rejected: {:?}", e)),
     };
     let (n_info, a_max, d_range) = stats_of(&t);
-    let sc = {
-        let mut v = Vec::new();
-        t.payoffs(&mut v);
-        v.iter().fold(1.0f64, |a, b| a.max(b.abs()))
+    let sc = match case.get("scale").and_then(|x| fparse(x)) {
+        // the magnitude of the numbers this run adds up, where the case knows it to be far below
+        // the largest payoff (a single iteration under uniform play on a deep ladder)
+        Some(x) => x,
+        None => {
+            let mut v = Vec::new();
+            t.payoffs(&mut v);
+            v.iter().fold(1.0f64, |a, b| a.max(b.abs()))
+        }
     };
     // the mutexes of the multi-threaded solvers are observed in the runs of C05, C06 and C07
     let watch_locks = (has("wellformed") || has("multi_eq_single")) && cfg.threads >= 2 && cfg.threads <= 16 && cfg.iters <= 12;
@@ -730,6 +735,26 @@ pub fn c02(ctx: &mut Ctx) -> String {
         }
         let asserts: &[&str] = if threads == 1 && iters <= 40 { &["bound", "corr"] } else { &["bound"] };
         case_solve(ctx, &solve_case(&t, &cfg, asserts));
+    }
+    // reaches far below machine epsilon with payoffs that make up for it: nothing in the
+    // algorithm may treat "tiny" as "zero"
+    for i in 0..(if ctx.thorough { 40u64 } else { 8 }) {
+        if ctx.out_of_time() {
+            break;
+        }
+        let depth = 50 + (i % 8) as u32 * 2;
+        let t = deep_alternating(&mut ctx.rng, depth, depth as i32 + 2 + (i % 5) as i32 * 3);
+        ctx.stat("family_deep-alternating");
+        let exp = depth as i32 + 2 + (i % 5) as i32 * 3;
+        let cfg = Cfg { method: "F".into(), params: Params::vanilla(), iters: 1 + i % 3, thr: 0.0, threads: if i % 4 == 3 { 2 } else { 1 }, target: None, seed: 0 };
+        let asserts: &[&str] = if cfg.threads == 1 { &["bound", "corr"] } else { &["bound"] };
+        let mut case = solve_case(&t, &cfg, asserts);
+        if cfg.iters == 1 {
+            // one iteration: every strategy is uniform, every number added up is a payoff times a
+            // reach of at most 2^-depth for the end payoff (and at most 1 for the stop payoffs)
+            case["scale"] = fjson(4.0 * 2f64.powi(exp - depth as i32).max(1.0));
+        }
+        case_solve(ctx, &case);
     }
     "Full method, vanilla parameters: games from the mixed stream x budgets {1..40, 100, 200/1000} x thresholds {0, around a bound value of the run} x threads {1, 2, 5, 16}; the returned total bound against get_info().regret() of the returned profile; single-threaded short runs are also compared with the model".to_string()
 }
